@@ -30,3 +30,30 @@ Theorem T17c_standard_vectors :
   crc32c_ref [] = 0.
 Proof. vm_compute. repeat split. Qed.
 Print Assumptions T17c_standard_vectors.
+
+(* T17d: "the hardware-accelerated and the table-driven implementations return the same
+   value", for every byte string and every start alignment of the table-driven one; and
+   the value does not depend on that alignment *)
+Theorem T17d_implementations_agree : forall misalign l, wf_bytes l -> crc_slicing misalign l = crc_sse42 l.
+Proof. intros m l H. rewrite T17a_slicing_is_standard by exact H. symmetry. apply T17b_sse42_is_standard. Qed.
+Print Assumptions T17d_implementations_agree.
+
+Theorem T17d_alignment_independent : forall m m' l, wf_bytes l -> crc_slicing m l = crc_slicing m' l.
+Proof. intros m m' l H. rewrite !T17a_slicing_is_standard by exact H. reflexivity. Qed.
+Print Assumptions T17d_alignment_independent.
+
+(* T17e: the value is a 32-bit word (what is stored in the 4-byte checksum field by
+   mtbl_fixed_encode32 without loss: T16d), and the register after a ++ b is the register
+   after a, continued over b (the property the 8-bytes-then-tail structure of both
+   implementations rests on) *)
+Theorem T17e_value_is_32_bits : forall l, wf_bytes l -> crc32c_ref l < 2 ^ 32.
+Proof.
+  intros l H. unfold crc32c_ref. change (2 ^ 32) with 4294967296. apply lxor_lt32.
+  - apply crc_update_lt32; [unfold CRC_MASK; lia|exact H].
+  - unfold CRC_MASK. lia.
+Qed.
+Print Assumptions T17e_value_is_32_bits.
+
+Theorem T17e_register_continues : forall c a b, crc_update c (a ++ b) = crc_update (crc_update c a) b.
+Proof. intros c a b. unfold crc_update. apply fold_left_app. Qed.
+Print Assumptions T17e_register_continues.
